@@ -338,6 +338,21 @@ def _check_server(case):
             return [], f'skipped: cannot bind loop-back ({exc})'
         total = 0
         got = []
+        raws = []
+        if case.get('oob'):
+            # a client that is not mido: it sends one byte of TCP urgent (out-of-band) data and then just stays
+            # connected. Nothing has arrived IN the stream, so the server must neither deliver anything nor wait for it.
+            raw = socket.create_connection(('127.0.0.1', portno), timeout=5)
+            raws.append(raw)
+            try:
+                raw.send(b'!', socket.MSG_OOB)
+            except OSError:
+                pass
+            with patched_sleep(fake):
+                for _ in range(3):
+                    m = server.poll()
+                    if m is not None:
+                        got.append(m)
         for ci, c in enumerate(case['clients']):
             cl = sockets_mod.connect('127.0.0.1', portno)
             clients.append(cl)
@@ -413,9 +428,26 @@ def _check_server(case):
         if sorted(map(key, got)) != sorted(map(key, want_all)):
             out.append(fail('server-multiset', f'got {got!r} expected (any interleaving of) {want_all!r}'[:800],
                             drain=drain))
+        # closing the server port is seen as a disconnect by every client that is still connected
+        if not out:
+            server.close()
+            for ci, (cl, c) in enumerate(zip(clients, case['clients'])):
+                if c.get('close'):
+                    continue
+                until = time.time() + 2.0
+                while not cl.closed and time.time() < until:
+                    cl.poll()
+                    if not cl.closed:
+                        real_sleep(0.002)
+                if not cl.closed:
+                    out.append(fail('server-close-not-seen', f'client {ci} of {len(clients)} is still connected 2 s after '
+                                                             f'the server port was closed', client=ci))
+                    break
     except Exception as exc:  # noqa: BLE001
         out.append(fail('raises', f'{exc!r}', exc=exc_sig(exc)))
     finally:
+        for raw in raws:
+            _cleanup(None, raw)
         for cl in clients:
             _cleanup(cl)
         try:
@@ -540,6 +572,7 @@ def server_cases(tier):
                     'clients': [{'msgs': notes(0, 2)}, {'msgs': notes(1, 5), 'close': True},
                                 {'msgs': notes(2, 1) + [{'type': 'sysex', 'data': list(range(40)), 'time': 0}]}]})
     out += [dict(c, late_send=True) for c in out]
+    out += [dict(c, oob=True) for c in out if len(c['clients']) == 2]
     return out
 
 
